@@ -89,6 +89,11 @@ def gen_cases(rng, ctx):
             l = line("c14_front", [[kind, hs, lt]])
             cases.append(Case(l, l, kind="live:listener-%s" % ["silent-tcp", "half-client-hello", "no-request-h1", "no-request-h2"][kind], nontrivial=True,
                               meta={"front": True, "kind": kind, "hs": hs, "lt": lt}))
+    # a slow handshake: the ClientHello arrives 0.6 T after the connection was made, the client's next flight is held back 0.7 T:
+    # the whole handshake takes about 1.3 x tls_handshake_timeout and must not be accepted
+    for hs in (1000, 1500):
+        l = line("c14_front", [[4, hs, 60000]])
+        cases.append(Case(l, None, kind="live:listener-slow-handshake", nontrivial=True, meta={"front": True, "kind": 4, "hs": hs, "lt": 60000}))
     # the service channels' session timer: after a completed speedtest download / upload / a ping the client stays connected
     # and silent; the session has to be closed by its timer (HTTP/2 through the door and the TLS listener, HTTP/3 through QUIC)
     for front, name in ((0, "h2"), (1, "h2-listener"), (3, "h3-quic")):
@@ -144,6 +149,13 @@ def judge(case, impl, model, spec, ctx):
             return [("violation", "the listener harness panicked")]
         if impl == "996":
             ctx.setdefault("skipped_env", []).append(case.kind)
+            return []
+        if m["kind"] == 4:
+            served, ms = untok(impl.split()[0])
+            if served:
+                return [("violation", "real listener, TLS handshake timeout %d ms, a handshake whose ClientHello arrived after about %d ms and whose next flight was held back "
+                                      "another %d ms: the handshake was accepted and a request served (the client knew after %d ms); a handshake that does not complete "
+                                      "within its timeout is dropped" % (m["hs"], m["hs"] * 6 // 10, m["hs"] * 7 // 10, ms))]
             return []
         closed, when = untok(impl.split()[0])
         t = m["hs"] if m["kind"] <= 1 else m["lt"]
